@@ -88,6 +88,10 @@ func runPrelude(spec string) {
 		if len(one) < 2 {
 			continue
 		}
+		if one[0] == '@' { // armed: run from inside the case's own eq (round5.go)
+			arm(one)
+			continue
+		}
 		p := strings.Split(one[1:], ".")
 		num := func(i int) int {
 			if i < len(p) {
